@@ -26,15 +26,14 @@ MODELLED_NOT_VERIFIED = [
     "NexmlWriter._write_format_section, _NexmlCharBlockParser, _link_blocks/_get_block_title/_get_taxon_namespace; tied to the code "
     "by per-case comparison of written text and read-back content; the symbol tables are regenerated from charstatemodel.py",
 ]
-EXPLANATION = ("Theorems (Props/C09.lean): symbol_roundtrip, symbol_case_insensitive, symbol_synonyms, ambiguity_token_roundtrip (generated "
-               "tables: every symbol / lower-case form / declared synonym denotes its state; {..} tokens find their code); "
-               "format_roundtrip (fixed types) and format_standard_roundtrip_partial (the generator's symbol sets); cells_roundtrip (row text "
-               "incl. {..}/(..) cells in any member order reads back cell by cell); nexus_matrix_roundtrip (whole sequential matrix, TAXA-block and "
-               "DATA-block entry); nexml_columns_partial + nexml_matrix_columns (repaired column ids => every row unshifted, ragged rows too); "
-               "assignTitles_distinct (pigeonhole: de-duplicated titles pairwise distinct up to case, fuel suffices) and title_link_resolves "
-               "(every LINK resolves to its own namespace for suppress_block_titles None/False, any labels); _partial fragments only for PHYLIP "
-               "label splitting, FASTA wrapping. Interleaved layouts, match characters, PHYLIP/FASTA whole files, continuous values, conversion "
-               "chains and tree lists are covered by correspondence and oracle only.")
+EXPLANATION = ("Theorems (Props/C09.lean): symbol tables (symbol_roundtrip, symbol_case_insensitive, symbol_synonyms, ambiguity_token_roundtrip); "
+               "FORMAT (format_roundtrip for the fixed types, format_standard_roundtrip for ARBITRARY custom symbol strings); NEXUS rows and whole "
+               "sequential matrix on both entry paths (cells_roundtrip, nexus_matrix_roundtrip), MATCHCHAR rows (matchchar_row_roundtrip), interleaved "
+               "line step (nexus_interleaved_roundtrip_partial: page fold missing); whole-file PHYLIP relaxed and strict for every admissible "
+               "label/option pair (phylip_relaxed_roundtrip, phylip_strict_roundtrip) and whole-file FASTA with wrapping (fasta_roundtrip); NeXML "
+               "columns (nexml_columns_partial, nexml_matrix_columns); TITLE/LINK (assignTitles_distinct, title_link_resolves); conversion chains "
+               "(convert_fasta_phylip_roundtrip, convert_nexus_phylip_fasta_roundtrip). Correspondence/oracle only: interleaved whole files, "
+               "continuous values, NeXML XML text, tree lists, custom-alphabet symbol lookup beyond the generator's sets.")
 
 NS = "{http://www.nexml.org/2009}"
 
